@@ -109,7 +109,7 @@ def props_report(prop, proof_files):
     """Re-run coqc on the property file to capture Print Assumptions; count obligations.
     Returns dict(obligations, discharged, theorems, assumptions(list), closed(int))."""
     pf = os.path.join(COQ, 'props', '%s_Props.v' % prop)
-    d = os.path.join(GEN, prop)
+    d = os.path.join(GEN, prop + os.environ.get('VERIF_GEN_SUFFIX', '') + '_props')
     os.makedirs(d, exist_ok=True)
     tmpv = os.path.join(d, '%s_Props_chk.v' % prop)
     shutil.copy(pf, tmpv)
@@ -159,7 +159,8 @@ def coq_eval_files(prop, files, timeout=1200):
 
 
 def gen_dir(prop):
-    d = os.path.join(GEN, prop)
+    # VERIF_GEN_SUFFIX: several runs of one property's check at the same time (seeded-change testing) keep apart
+    d = os.path.join(GEN, prop + os.environ.get('VERIF_GEN_SUFFIX', ''))
     if os.path.isdir(d):
         shutil.rmtree(d)
     os.makedirs(d)
@@ -302,4 +303,14 @@ def proof_stage(prop, proof_files, verdict):
     info.pop('out', None)
     if not rep['ok']:
         info['props_log_tail'] = rep['out'][-3000:]
+    if os.environ.get('VERIF_TIER_EFFECTIVE') == 'thorough' and rep['ok']:
+        # independent re-check of the compiled property file and of everything it depends on
+        try:
+            rc, out = run(['coqchk', '-silent', '-o'] + COQ_FLAGS + ['SismicProps.%s_Props' % prop], 3000, cwd=COQ)
+        except Exception as e:  # noqa
+            rc, out = 1, repr(e)
+        m = re.search(r'\* Axioms:(.*?)\n\s*\n\* Constants', out, re.S)
+        info['coqchk'] = dict(rc=rc, axioms=' '.join(m.group(1).split()) if m else None, tail=out[-600:] if rc != 0 else '')
+        if rc != 0:
+            info['ok'] = False
     return info
